@@ -550,6 +550,12 @@ def hParse62 : Handler
     let t ← unhexString t
     some (match Codec.parse62 t with | some v => toString v | none => "none")
   | _ => none
+/-- io.stream.int hextext => value | throw:runtime_error   (`operator>>` on one line of text) -/
+def hStreamInt : Handler
+  | [t] => do
+    let t ← unhexString t
+    some (match Codec.parse62 t with | some v => toString v | none => "throw:runtime_error")
+  | _ => none
 def hStr62 : Handler
   | [v] => do let v ← pInt v; some (hexOfString (Codec.str62 v))
   | _ => none
@@ -729,7 +735,7 @@ def handlers : List (String × Handler) := [
   ("zk.or.prove", hOrProve), ("zk.or.verify", hOrVerify),
   ("zk.key.respond", hKeyRespond), ("zk.key.final", hKeyFinal),
   ("zk.se.verify", hSeVerify), ("zk.se.prove", hSeProve),
-  ("codec.parse62", hParse62), ("codec.str62", hStr62),
+  ("codec.parse62", hParse62), ("io.stream.int", hStreamInt), ("codec.str62", hStr62),
   ("tmcg.open", hTmcgOpen), ("tmcg.secret", hTmcgSecret),
   ("stack.types", hStackTypes), ("stack.mixglue-equal", hMixGlueEqual),
   ("rng.mod", hRngMod), ("rng.fy", hRngFy), ("rng.rot", hRngRot),
